@@ -432,3 +432,35 @@ Proof.
   - intros a b Ha. destruct a; [congruence|]. simpl isnil; cbv iota. rewrite psum_app, psumsq_app, pcount_app.
     f_equal; [f_equal; ring|lia].
 Qed.
+
+(* ------------------------------------------------------------------------------------------------ *)
+(* the as-found variants violate the property (witnesses computed by vm_compute)                       *)
+(* ------------------------------------------------------------------------------------------------ *)
+Definition rw (s k v : Z) : row := mkRow s k (Some (z2q v)).
+Definition res_q (r : res) : Q := match r with RScal (ONum q) => this q | RScal ONan => (-1 # 1)%Q | _ => (-2 # 1)%Q end.
+
+(* T = 3ns, batches [t=0,t=1] [t=3]: newest = 3, the row at t = 1 = newest - T + 1ns lies inside (newest-T, newest]
+   but `.loc[:mn]` slices it away together with the row at t = 0: emitted sum 4 instead of 6 *)
+Definition loc_witness : list frame := [[rw 0 0 1; rw 1 0 2]; [rw 3 0 4]].
+Theorem diff_loc_boundary_refuted : exists T batches, (1 <= T)%Z /\ ssorted (concat batches) /\
+  wrun sum_agg (WT false T) batches <> map (fun p => RScal (fin sum_agg (psum (window_t T p)))) (prefixes batches).
+Proof.
+  exists 3%Z, loc_witness. split; [lia|]. split.
+  - simpl. repeat split; intros b Hb; simpl in Hb; intuition (subst; simpl; lia).
+  - intro H. apply (f_equal (fun l => res_q (nth 1%nat l RExc))) in H. vm_compute in H. discriminate.
+Qed.
+
+(* the same defect with T = 1ns removes every retained frame: IndexError (RExc) on the second row *)
+Theorem diff_loc_T1_raises : wrun sum_agg (WT false 1%Z) [[rw 0 0 1; rw 1 0 2]] = [RExc].
+Proof. vm_compute. reflexivity. Qed.
+
+(* Series.mean(): an empty first batch stores counts := 1; the next mean is divided by one too many *)
+Theorem mean_scalar_count_zero_refuted : exists N batches,
+  wrun (mean_agg true false) (WN N) batches <> map (fun p => RScal (mean_fin (mean_h (window_n N p)))) (prefixes batches).
+Proof.
+  exists 1%nat, [[]; [rw 0 0 2]]. intro H. apply (f_equal (fun l => res_q (nth 1%nat l RExc))) in H. vm_compute in H. discriminate.
+Qed.
+
+(* Series.var(): an empty first batch divides the python ints 0/0 *)
+Theorem var_scalar_empty_raises : wrun (var_agg true false 1%Z) (WN 2%nat) [[]; [rw 0 0 2]] = [RExc; RScal ONan].
+Proof. vm_compute. reflexivity. Qed.
